@@ -253,6 +253,18 @@ func runFragRecv(c *FragRecvCase) *sim.Outcome {
 			}
 			f := ref.Fragment{V3: v3, K: next, N: len(cur), Payload: cur[next-1]}
 			c2 := send(f.K, f.N, f.Payload, peer, own)
+			if f.K > 1 && f.K < f.N {
+				// a repeated middle piece: the protocol document says forget, but ignoring the repetition also yields
+				// only completely and correctly reassembled messages, which is all the statement asks; accept both
+				if c2.HasPl {
+					o.Fail("C14/spurious-delivery", "a repeated middle piece made Receive return %.60q", c2.Plain)
+					return o
+				}
+				ambiguous = true
+				model = ref.Reassembler{}
+				oddMid = oddMid || midStream
+				continue
+			}
 			if !expect(c2, f, "a repeated piece") {
 				return o
 			}
